@@ -1,20 +1,32 @@
 (* C01 — Layout always returns: no panic, process abort, hang or runaway memory.
    Model: every Go panic site and every loop without an a-priori bound is explicit in the model: a distinct
    [Err] constructor per panic, explicit fuel per recursion/loop (Model/Base.v, [err]). "Layout returns" on the
-   model is: [layout ... = Ok _]. C01_partial — proved for all well-formed inputs, stage by stage:
+   model is: [layout ... = Ok _]. Proved for all well-formed inputs — first stage by stage, then for the whole
+   Layout (C01_layout_returns, at the end of this file):
    - Populate fails only on an edge that does not have exactly two ids (excluded by well-formedness);
    - phase 1 (both breakers) is total on every consistent loop-free component: no fuel exhaustion, no index
      error, and never "graph is still cyclic";
    - longest-path layering is total on every acyclic component;
    - breaking long edges is total on every feasible layering, merging them again is total afterwards;
    - VAlign, PackRight, assign_y, straight/orthogonal routing are total functions (no error value in their type).
-   NOT proved: termination of the network-simplex tight-tree loop and of its pivot loop within the model's fuel
-   (the pivot loop is cut by the documented iteration budget, so it is bounded by construction), of the
-   weighted-median transposition loop, of SinkColoring's placeBlock recursion and of Brandes-Koepf; spline
-   routing (known finding). For these the check relies on (a) the deep correspondence: the model, run with its
-   explicit fuel on every traced case, must return Ok and reproduce the implementation (a fuel exhaustion is
-   code x98), and (b) a watchdog search on the implementation: wall-clock and heap limit per call in a worker.
-   Stack overflow, out-of-memory and wall-clock time are runtime behaviour that no Gallina model exhibits. *)
+   - network simplex: the initial layers, the tight-tree loop (one more node per round, by connectivity), the
+     lim/low walk, the pivot loop and balancing all end within the model's fuel (Proofs/TotalNS.v, NSTotal.v);
+   - the ordering heuristic: both initial orders; the transposition loop ends because every improving round
+     strictly lowers the crossing count (Proofs/TotalWmedian.v);
+   - SinkColoring: painting ends, and placeBlock reaches its fixpoint within |N|+2 rounds because the blocks of a
+     properly layered, ordered graph are acyclically ranked (Proofs/TotalSink.v) — outside that class placeBlock
+     really diverges (examples in that file), so its termination rests on phases 2-3 having run;
+   - hence the whole Layout returns for every non-empty edge list of pairs and every combination of
+     {Greedy, DepthFirst} x {LongestPath, NetworkSimplex} x {VAlign, PackRight, SinkColoring} x {Straight,
+     Polyline, Ortho} (C01_layout_returns). The only side condition, thoroughness * sqrt(2|E|) <= 100000, is an
+     artefact of the model's fuel cap on the pivot loop, not of the code.
+   C01_partial: NOT covered by the theorem: the NetworkSimplex positioner and Brandes-Koepf as positioners
+   (termination of hbalance's recursion and of the Brandes-Koepf loops is not proved; the latter's functional
+   model runs on explicit fuel), and spline routing (recorded finding). For these the check relies on the
+   correspondence — the model, run with explicit fuel on every traced case, must return Ok and reproduce the
+   implementation — and on a watchdog search of the implementation (wall clock and heap per call).
+   Stack overflow, out-of-memory and wall-clock time are runtime behaviour that no Gallina model exhibits; the
+   recorded finding `ns-positioner-slow` is of that kind. *)
 From Coq Require Import List ZArith.
 From Autog Require Import Graph Populate Phase1 Phase2 Phase3 Phase5 PopulateProofs CycleBreaking BreakMerge.
 From Autog Require LongestPath.
@@ -47,3 +59,20 @@ Proof.
   exists g1, g2, routes. split; assumption.
 Qed.
 Print Assumptions C01_break_and_merge_total.
+
+From Coq Require Import QArith.
+From Autog Require Import Layout Pipeline E2EBackbone TotalNS TotalPipeline.
+
+(* one component through the whole pipeline *)
+Theorem C01_component_returns : forall o g,
+  component_input g -> options_ok o -> p2_ready o g -> exists g' x, layout_component o g = Ok (g', x).
+Proof. exact layout_component_total. Qed.
+Print Assumptions C01_component_returns.
+
+(* the whole Layout, from the raw edge list: every non-empty list of pairs, any identifiers, any size options *)
+Theorem C01_layout_returns : forall (A : Type) (eqA : A -> A -> bool), (forall x y, eqA x y = true <-> x = y) ->
+  forall o (fixed : option (Q * Q)) (sizes : option (list (A * (Q * Q)))) (es : list (list A)),
+  es <> [] -> Forall (fun p => length p = 2%nat) es -> layout_options_ok A o es ->
+  exists ids r, layout A eqA o fixed sizes es = Ok (ids, r).
+Proof. exact layout_total. Qed.
+Print Assumptions C01_layout_returns.
